@@ -47,9 +47,38 @@ def plan(tier, seed):
         specs.append({'id': 'c18c-%d' % i, 'kind': 'corpus', 'file_index': rnd.randrange(len(files)),
                       'ntok': ntok, 'seed': '%s/C18/c%d' % (seed, i)})
     for i in range(n_gen):
-        specs.append({'id': 'c18g-%d' % i, 'kind': 'gen', 'ntok': ntok * 2,
+        # every third generated module is first analysed in an earlier version (one more class or
+        # def header line, queried through a Script of its own on the same path): the answers for the
+        # current text may not depend on what was asked about the text it was edited from
+        specs.append({'id': 'c18g-%d' % i, 'kind': 'gen', 'ntok': ntok * 2, 'edited_from_earlier': i % 3 == 2,
                       'seed': '%s/C18/g%d' % (seed, i)})
     return specs
+
+
+def earlier_version(text, rnd):
+    """A syntactically valid text from which `text` results by deleting one line: a `class X:` /
+    `def x():` header put in front of a definition that is not the first statement of its body, so
+    that this definition and its later siblings sit in another scope in the earlier version."""
+    lines = text.split('\n')
+    tree = ast.parse(text)
+    spots = []
+    for node in ast.walk(tree):
+        body = getattr(node, 'body', None)
+        if isinstance(node, (ast.ClassDef, ast.FunctionDef, ast.AsyncFunctionDef)) and isinstance(body, list):
+            for st in body[1:]:
+                if isinstance(st, (ast.ClassDef, ast.FunctionDef, ast.AsyncFunctionDef)):
+                    first = min([st.lineno] + [d.lineno for d in st.decorator_list])
+                    spots.append((first, node.col_offset))
+    rnd.shuffle(spots)
+    for first, indent in spots[:6]:
+        hdr = rnd.choice(['class Kprev0:', 'class Kprev0(object):', 'def fprev0(self):', 'def fprev0():'])
+        cand = '\n'.join(lines[:first - 1] + [' ' * indent + hdr] + lines[first - 1:])
+        try:
+            ast.parse(cand)
+        except SyntaxError:
+            continue
+        return cand
+    return None
 
 
 class Def:
@@ -214,10 +243,32 @@ def run(spec):
         res['inconclusive'] = ['not a syntactically valid file under 3.12 (precondition)']
         return res
     w = {'case': spec['id'], 'path': path}
+    if spec.get('edited_from_earlier'):
+        prev = earlier_version(text, rnd)
+        if prev is None:
+            rec.ev('c18:no_earlier_version_possible')
+        else:
+            okp, sp = apimon.call(rec, 'Script', jedi.Script, prev, path=path, project=project, witness=w)
+            if okp:
+                okp, pnames = apimon.call(rec, 'get_names', sp.get_names, all_scopes=True, definitions=True,
+                                          references=True, witness=w)
+                for n in (pnames if okp else []):
+                    apimon.call(rec, 'full_name', lambda: n.full_name, witness=w)
+                    apimon.call(rec, 'parent', n.parent, witness=w)
+                    apimon.call(rec, 'get_context', sp.get_context, n.line, n.column, witness=w)
+                    apimon.call(rec, 'goto', sp.goto, n.line, n.column, witness=w)
+                rec.ev('c18:earlier_version_queried')
+                w['earlier_version'] = prev[:8000]
+            sp = pnames = n = None
     ok, script = apimon.call(rec, 'Script', jedi.Script, text, path=path, project=project, witness=w)
     if not ok:
         res['inconclusive'] = ['Script() raised (reported by C01)']
         return res
+    if w.get('earlier_version'):
+        from vf import treedump
+        if treedump.dump(script._module_node) != treedump.dump(script._inference_state.grammar.parse(text)):
+            res['inconclusive'] = ['parso incremental tree differs from a fresh parse (charged to parso)']
+            return res
 
     # ---- get_context at token positions
     cand = [t for t in toks if t.type in (tokenize.NAME, tokenize.OP, tokenize.NUMBER,
